@@ -75,6 +75,8 @@ func c14Menu(initial int) []c14Doc {
 	}
 	if initial == 1 {
 		prefixes = append(prefixes, struct{ name, sdl string }{"extend-enum-and-union", "extend enum Color { PUCE }\nextend union AB = Ev\n"})
+		// implementers of an interface of an earlier load arrive with the failing document (a new type, and an old one by extension)
+		prefixes = append(prefixes, struct{ name, sdl string }{"new-implementers-of-an-old-interface", "type P9 implements Named { name: String }\nextend type Ev implements Named\n"})
 	}
 	// an input type used by a directive argument of an EARLIER load gains a defaulted field (only valid after
 	// V-directive-with-input-object-argument; otherwise one more way to fail)
